@@ -50,7 +50,7 @@ ResultKind(k, o) ==
   ELSE k
 AllMuts == {"setx", "imul", "seta", "post_translate", "reset", "imatmul", "setred", "setopacity", "iadd", "setamount", "imul_num",
             "setend", "setstart", "setpt", "reify", "paint", "setfill", "sw", "tredit", "values", "append", "delete", "setitem",
-            "setid", "reverse", "iadd_str", "setgeom", "scalegeom", "ptappend", "childedit", "childtredit", "settext", "seturl"}
+            "setid", "reverse", "iadd_str", "setgeom", "scalegeom", "ptappend", "childedit", "childtredit", "settext", "seturl", "vbedit"}
 MutsOf(k) ==
   IF k = "Point" THEN {"setx", "imul"}
   ELSE IF k = "Matrix" THEN {"seta", "post_translate", "reset", "imatmul"}
@@ -63,12 +63,13 @@ MutsOf(k) ==
   ELSE IF k \in {"Rect", "RRect", "Circle", "Ellipse", "SimpleLine"} THEN
                        {"setgeom", "imul", "reify", "paint", "setfill", "sw", "tredit", "values", "setid"}
   ELSE IF k \in LenShapes THEN {"setgeom", "scalegeom", "imul", "reify", "paint", "setfill", "sw", "tredit", "values", "setid"}
-  ELSE IF k \in {"TextLen", "ImageLen"} THEN {"scalegeom", "imul", "values", "tredit"}
+  ELSE IF k = "TextLen" THEN {"scalegeom", "imul", "values", "tredit"}
+  ELSE IF k = "ImageLen" THEN {"scalegeom", "imul", "values", "tredit", "vbedit"}
   ELSE IF k = "MatrixLen" THEN {"scalegeom", "post_translate", "seta"}
   ELSE IF k \in {"Polyline", "Polygon"} THEN {"setpt", "ptappend", "imul", "reify", "paint", "sw", "tredit", "values"}
   ELSE IF k \in Groups THEN {"imul", "reify", "values", "append", "delete", "childedit", "childtredit", "setid"}
   ELSE IF k = "Text" THEN {"imul", "reify", "paint", "settext", "values", "tredit"}
-  ELSE {"imul", "values", "seturl", "tredit"}
+  ELSE {"imul", "values", "seturl", "tredit", "vbedit"}
 
 Init == /\ kind \in Kinds /\ op \in OpsOf(kind)
         /\ hist = <<>> /\ vx = 0 /\ vy = 0
